@@ -1,109 +1,100 @@
 /-
   C10 — A process crash loses no committed transaction and exposes no partial one.
-  Record-level core: recovery (`replay` of the records whose transaction has a committed record)
-  ignores every record of a transaction without commit marker, wherever it lies in the log, and a
-  transaction's records all become visible exactly when its last record (the only one written with
-  status Committed) is in the log. Ids must be fresh: that was violated before the fix of D-TXID.
+
+  Record level (`Lemmas/Replay.lean`): recovery replays exactly the records whose transaction has a record
+  with the commit mark; records of a transaction without one are ignored wherever they lie, and a
+  transaction's records all become visible exactly when its last record is in the log. Ids must be fresh:
+  that was violated before the fix of D-TXID.
+
+  History level (`Lemmas/Reopen*.lean`): along every history of key/value commits and reopens the state
+  satisfies `Reopen.LogInv`, and from any such state a crash after any number of records of the next
+  transaction short of the last one recovers exactly the state before that transaction; once the last record
+  is written, exactly the state after it.
 -/
-import Nuts.Model.Tx
-import NutsProofs.Facts
+import NutsProofs.Lemmas.Replay
+import NutsProofs.Lemmas.ReopenCrash
 namespace NutsProofs.C10
-open Nuts Nuts.Model Nuts.Model.DB
+open Nuts Nuts.Model Nuts.Model.DB NutsProofs
 
-abbrev LogRec := Rec × Nat × Nat
+abbrev LogRec := Replay.LogRec
 
-/-- the records recovery looks at -/
-def visible (rs : List LogRec) (ids : List Nat) : List LogRec := rs.filter fun x => ids.contains x.1.txid
-
-/-- recovery replays exactly the visible records -/
-theorem replay_visible (s : State) (rs : List LogRec) (ids : List Nat) :
-    replay s rs ids = replay s (visible rs ids) ids := by
-  induction rs generalizing s with
-  | nil => rfl
-  | cons x rest ih =>
-    obtain ⟨r, fid, pos⟩ := x
-    by_cases h : ids.contains r.txid
-    · have hv : visible ((r, fid, pos) :: rest) ids = (r, fid, pos) :: visible rest ids := by
-        unfold visible; exact List.filter_cons_of_pos (by simpa using h)
-      rw [hv]
-      simp only [replay, h, Bool.not_true, Bool.false_eq_true, ↓reduceIte]
-      split
-      · exact ih _
-      · split
-        · rfl
-        · split <;> first | rfl | exact ih _
-    · have hv : visible ((r, fid, pos) :: rest) ids = visible rest ids := by
-        unfold visible; exact List.filter_cons_of_neg (by simpa using h)
-      rw [hv]
-      simp only [replay, h, Bool.not_false, ↓reduceIte]
-      exact ih _
-
-theorem committedIds_append (a b : List LogRec) : committedIds (a ++ b) = committedIds a ++ committedIds b := by
-  simp [committedIds]
-
-/-- records written without commit marker contribute no committed id -/
-theorem committedIds_uncommitted (b : List LogRec) (h : ∀ x ∈ b, x.1.status = 0) : committedIds b = [] := by
-  unfold committedIds
-  rw [List.map_eq_nil_iff, List.filter_eq_nil_iff]
-  intro x hx
-  simp [h x hx]
-
-/-- **C10 (no partial transaction).** A log followed by any records of a transaction that has no
-commit marker anywhere (a crash before its last write, a failed commit) recovers exactly as the log
+/-- **C10 (no partial transaction), record level.** A log followed by any records of a transaction that
+has no commit marker anywhere (a crash before its last write, a failed commit) recovers exactly as the log
 alone: same committed ids, same replay — provided the transaction's id is fresh. -/
 theorem C10_uncommitted_suffix_invisible (s : State) (log extra : List LogRec)
     (hst : ∀ x ∈ extra, x.1.status = 0)
     (hfresh : ∀ x ∈ extra, ∀ y ∈ log, y.1.txid ≠ x.1.txid) :
     committedIds (log ++ extra) = committedIds log ∧
-    replay s (log ++ extra) (committedIds (log ++ extra)) = replay s log (committedIds log) := by
-  have hc : committedIds (log ++ extra) = committedIds log := by
-    rw [committedIds_append, committedIds_uncommitted extra hst, List.append_nil]
-  refine ⟨hc, ?_⟩
-  rw [hc, replay_visible s (log ++ extra), replay_visible s log]
-  congr 1
-  unfold visible
-  rw [List.filter_append]
-  have : extra.filter (fun x => (committedIds log).contains x.1.txid) = [] := by
-    rw [List.filter_eq_nil_iff]
-    intro x hx hcon
-    simp only [List.contains_eq_mem, decide_eq_true_eq] at hcon
-    unfold committedIds at hcon
-    rw [List.mem_map] at hcon
-    obtain ⟨y, hy, hyx⟩ := hcon
-    exact hfresh x hx y (List.mem_filter.mp hy).1 hyx
-  rw [this, List.append_nil]
+    replay s (log ++ extra) (committedIds (log ++ extra)) = replay s log (committedIds log) :=
+  Replay.uncommitted_suffix_invisible s log extra hst hfresh
 
-/-- **C10 (no committed transaction lost).** Once the last record — the one carrying the commit
-marker — is in the log, every record of the transaction is visible to recovery. -/
+/-- **C10 (no committed transaction lost), record level.** Once the last record — the one carrying the
+commit marker — is in the log, every record of the transaction is visible to recovery. -/
 theorem C10_committed_all_visible (log : List LogRec) (recs : List LogRec) (id : Nat)
     (hid : ∀ x ∈ recs, x.1.txid = id) (hlast : ∃ x ∈ recs, x.1.status = 1) :
-    ∀ x ∈ recs, x ∈ visible (log ++ recs) (committedIds (log ++ recs)) := by
-  intro x hx
-  obtain ⟨l, hl, hls⟩ := hlast
-  unfold visible
-  rw [List.mem_filter]
-  refine ⟨by simp [hx], ?_⟩
-  simp only [List.contains_eq_mem, decide_eq_true_eq]
-  unfold committedIds
-  rw [List.mem_map]
-  refine ⟨l, ?_, ?_⟩
-  · rw [List.mem_filter]; exact ⟨by simp [hl], by simp [hls]⟩
-  · rw [hid l hl, hid x hx]
+    ∀ x ∈ recs, x ∈ Replay.visible (log ++ recs) (committedIds (log ++ recs)) :=
+  Replay.committed_all_visible log recs id hid hlast
 
-/-- Witness of the fixed finding D-TXID: with a *shared* id the uncommitted record IS visible, which
-is why freshness is a hypothesis above (and why every transaction now gets a distinct id). -/
+/-- Witness of the fixed finding D-TXID: with a *shared* id the uncommitted record IS visible, which is why
+freshness is a hypothesis (and why every transaction now gets a distinct id). -/
 theorem C10_witness_shared_id :
     let committed : LogRec := ({ (mkRec [97] [107] [1] flagSet dsKV) with txid := 7, status := 1 }, 0, 0)
     let residue : LogRec := ({ (mkRec [97] [108] [2] flagSet dsKV) with txid := 7, status := 0 }, 0, 46)
-    residue ∈ visible [committed, residue] (committedIds [committed, residue]) := by
-  decide
+    residue ∈ Replay.visible [committed, residue] (committedIds [committed, residue]) :=
+  Replay.witness_shared_id
 
 /-- the two structural facts of `Tx.Commit` (regenerated from the source on every run) that make the
-record-level argument apply to the code: the commit marker is set on the last record only, before
-it is written; the id enters `committedTxIds` only after that write. -/
+record-level argument apply to the code: the commit marker is set on the last record only, before it is
+written; the id enters `committedTxIds` only after that write. -/
 theorem C10_commit_marker_facts :
     Facts.items "status" = [("status", "i == lastIndex", "entry.Meta.status = Committed")] ∧
     (NutsGen.F.commitLoop.findIdx? (·.1 == "write")).getD 99 < (NutsGen.F.commitLoop.findIdx? (·.1 == "committedIds")).getD 0 :=
-  ⟨Facts.commit_marker_last_only.1, Facts.commit_ids_after_last_write.2⟩
+  Replay.commit_marker_facts
+
+open NutsProofs.Reopen in
+/-- **C10 (history level: crash before the commit mark).** After any history of key/value transactions and
+reopens, a transaction with a fresh id starts to commit and the process dies when `j` of its records — any
+number short of the last — have reached the files (rotations included). `Open` on what is left succeeds and
+rebuilds exactly the index and the committed ids the database had before the transaction; in the key+value
+mode every read then returns what it returned before the transaction began. -/
+theorem C10_crash_before_marker_recovers_prestate (opt0 : Opts) (ops : List Op) (hok : OpsOk (openDB opt0 []).1 ops)
+    (t : List Rec) (tid : Nat) (j : Nat)
+    (ht : ∀ r ∈ t, r.ds = dsKV ∧ r.txid = tid ∧ r.status = 0)
+    (hfresh : ∀ x ∈ allRecs (ops.foldl stepOp (openDB opt0 []).1).files, x.1.txid ≠ tid)
+    (opt : Opts) :
+    let s := ops.foldl stepOp (openDB opt0 []).1
+    let s' := (openDB opt (crashAfter s t j).files).1
+    (openDB opt (crashAfter s t j).files).2 = .ok () ∧ s'.kv = normKV s.kv ∧ (∀ id, id ∈ s'.committed ↔ id ∈ s.committed) ∧
+    (s.opt.mode = 0 → opt.mode = 0 →
+      (∀ b k now, vis (DB.get s' b k now) = vis (DB.get s b k now)) ∧
+      (∀ b now, visL (getAll s' b now) = visL (getAll s b now)) ∧
+      (∀ b st en now, visL (rangeScan s' b st en now) = visL (rangeScan s b st en now)) ∧
+      (∀ b pre off lim now mt, visL (prefixScan s' b pre off lim now mt) = visL (prefixScan s b pre off lim now mt))) := by
+  intro s s'
+  have hinv : LogInv s := logInv_ops ops _ (logInv_init opt0) hok
+  obtain ⟨h1, h2, h3⟩ := crash_in_commit_recovers_prestate s hinv t tid j ht hfresh opt
+  refine ⟨h1, h2, h3, ?_⟩
+  intro hm hm'
+  have hopt' : s'.opt.mode = 0 := by
+    have : s'.opt = opt.core := Replay.openDB_opt opt _
+    rw [this]; exact hm'
+  have hr : Rebuilt s s' := Rebuilt.of_mode0 h2 hm hopt' h3
+  exact ⟨fun b k now => get_rebuilt hr b k now, fun b now => getAll_rebuilt hr b now,
+    fun b st en now => rangeScan_rebuilt hr b st en now,
+    fun b pre off lim now mt => prefixScan_rebuilt hr b pre off lim now mt⟩
+
+open NutsProofs.Reopen in
+/-- **C10 (history level: crash after the commit mark).** Once `Commit` has written the last record, the
+files are those of the state after the transaction, and `Open` rebuilds that state: nothing committed is
+lost. (With `C08_reopen_preserves_kv_reads` for what the reads return.) -/
+theorem C10_crash_after_marker_recovers_poststate (opt0 : Opts) (ops : List Op) (t : List Rec)
+    (hok : OpsOk (openDB opt0 []).1 (ops ++ [Op.commit t])) (opt : Opts) :
+    let s := (ops ++ [Op.commit t]).foldl stepOp (openDB opt0 []).1
+    (openDB opt s.files).2 = .ok () ∧ (openDB opt s.files).1.kv = normKV s.kv ∧
+    (∀ id, id ∈ (openDB opt s.files).1.committed ↔ id ∈ s.committed) := by
+  intro s
+  have hinv : LogInv s := logInv_ops _ _ (logInv_init opt0) hok
+  obtain ⟨h1, h2, _, h4⟩ := open_rebuilds s hinv opt
+  exact ⟨h1, h2, h4⟩
 
 end NutsProofs.C10
